@@ -1,7 +1,7 @@
 HOOK_COMMITS = ["69b5feac", "e0ac4262"]
-FIX_COMMITS = ["1d9ec378", "304105e7", "df3a2e6c", "f7361866", "4009b9f0", "f51e7edb", "ccff1f53", "d86e4171", "5461825f"]
+FIX_COMMITS = ["1d9ec378", "304105e7", "df3a2e6c", "f7361866", "4009b9f0", "f51e7edb", "ccff1f53", "d86e4171", "5461825f", "eb1c672c", "18c59c44", "814903cd", "e65909a8"]
 ENGINES = [
-    {"name": "tlc+harness", "path": "/verif/bin/check", "serves_properties": ["C01", "C02", "C04", "C05", "C06", "C07", "C08", "C09", "C10", "C11", "C12", "C13", "C15", "C16", "C17", "C18", "C19", "C20", "C03"],
+    {"name": "tlc+harness", "path": "/verif/bin/check", "serves_properties": ["C01", "C02", "C04", "C05", "C06", "C07", "C08", "C09", "C10", "C11", "C12", "C13", "C14", "C15", "C16", "C17", "C18", "C19", "C20", "C03"],
      "kind_free_text": "explicit TLA+ specification (spec/*.tla) checked with TLC; bound to the Rust code by a harness crate "
                        "(/verif/harness) that replays TLC-generated behaviours into mls-rs and records traces validated by TLC"},
 ]
@@ -87,6 +87,12 @@ CHECKS += [
     {"id": "C17", "category": "model_checking", "technique": _CORE + "; successor-group actions (SuccCreate / SuccJoin) replayed through ReinitClient, Group::branch, join_subgroup",
      "text": "After a re-init commit the model freezes the group (TLC: FrozenNeverAdvances); successor creation succeeds exactly when key-package owners + creator equal the old member identities (re-init, whatever the old tree's shape) or are a subset (branch) (TLC: SuccessorsLegal); joining succeeds exactly for an invited party that holds the old group in the epoch the successor was created from and uses the matching API. Generated behaviours (trees with blank interior leaves, exact / smaller / larger member sets, joins through the right and wrong API, plain Client::join_group, members in other epochs) are replayed; outcome class, epoch 1, member identities, group id, extensions, and creator/joiner agreement (context, tree, authenticator, application message) are compared.",
      "note": "see C01; cipher-suite / version change on re-init and identity (credential) changes between old and new leaves are not generated; mismatched Welcomes are limited to wrong kind / wrong epoch / no old state"},
+]
+
+CHECKS += [
+    {"id": "C14", "category": "model_checking", "technique": "TLA+ contract (CryptoContract.tla) and TLA+ reference semantics of X.509 chain validation (X509.tla): TLC enumerates the certificate-chain cases and validates the tables recorded from all three providers; mixed-provider groups through the core specification's replays",
+     "text": "Primitives: for every cipher suite two providers share, a table with one row per (operation, input) -- hash, MAC, HKDF extract/expand, AEAD seal/open, KEM derivation at empty / block-boundary / long inputs; signatures, signature public-key derivation, HPKE base and PSK mode and HPKE contexts for every ordered provider pair; wrong tags, wrong key / nonce lengths, malformed and off-curve public keys, other info / PSK -- is checked by TLC against CryptoContract.tla (same status and bytes for deterministic operations, success for valid cross-provider use, rejection by everybody for invalid inputs, coverage of every operation per suite). X.509: TLC enumerates all chains of <= 3 (thorough 4) certificates over an 11-certificate universe x 3 anchor sets x 17 validation times around every validity boundary with a reference verdict; the harness builds real certificates and records the three validators' verdicts; TLC recomputes the reference per recorded row and demands agreement and, where the reference is not 'any', correctness. Mixed-provider groups: core behaviours replayed with random provider mixes.",
+     "note": "certificates use P-256 and basic constraints only (no key usage / path length / name constraints); primitive inputs are a boundary set, not all byte strings; known findings F15, F16, F20 are reported as KNOWN-FINDING"},
 ]
 
 _PENDING = "check not built yet in this round (see DESIGN.md section 10 build order); will be claimed once its TLA+ model and binding exist"
